@@ -161,6 +161,29 @@ fn build(c: &mut Ctx, which: u64, m: &Model) -> Result<PersistentState, String> 
             }
             Ok(st.freeze(&mut c.loader, &mut EmptyCollector))
         }
+        6 => {
+            c.log.push("history G: other contents, freeze, thaw, delete everything, freeze (empty), reuse the same mutable state, freeze".into());
+            let other: Vec<(Vec<u8>, Vec<u8>)> = (0..1 + c.r.below(4)).map(|_| (gen_key(c.r), gen_val(c.r))).collect();
+            let mut st0 = MutableState::initial_state();
+            insert_all(&mut st0, &mut c.loader, &other)?;
+            let p0 = st0.freeze(&mut c.loader, &mut EmptyCollector);
+            let mut st = p0.thaw();
+            let dk: Vec<Vec<u8>> = other.iter().map(|(k, _)| k.clone()).collect();
+            delete_all(&mut st, &mut c.loader, &dk)?;
+            let e = st.freeze(&mut c.loader, &mut EmptyCollector);
+            let empty_hash = reference_hash(&Model::new()).0;
+            expect_hash(c, &e, &empty_hash, "state with every key deleted")?;
+            check_persistent(&e, &mut c.loader, &Model::new(), "state with every key deleted")?;
+            if c.r.chance(1, 2) {
+                // freezing the same mutable state again without touching it gives the same empty state
+                let e2 = st.freeze(&mut c.loader, &mut EmptyCollector);
+                expect_hash(c, &e2, &empty_hash, "second freeze of the emptied state")?;
+                check_persistent(&e2, &mut c.loader, &Model::new(), "second freeze of the emptied state")?;
+            }
+            let items = shuffled(c.r, m);
+            insert_all(&mut st, &mut c.loader, &items)?;
+            Ok(st.freeze(&mut c.loader, &mut EmptyCollector))
+        }
         _ => {
             c.log.push("history E: build part, freeze, persist, thaw, finish, freeze".into());
             let mut st = MutableState::initial_state();
@@ -262,6 +285,39 @@ fn persistence_chain(c: &mut Ctx, mut p: PersistentState, m: &Model, want: &[u8;
                         return Err(format!("lookup in thawed state of {} gives {:?}", hx(&k), got.map(|g| g.len())));
                     }
                 }
+                // operations that leave the contents alone: deleting keys that are not there
+                // (in particular ones that end at a branching point between two keys) ...
+                if c.r.chance(1, 2) {
+                    let keys: Vec<Vec<u8>> = m.keys().cloned().collect();
+                    let mut absent: Vec<Vec<u8>> = near_misses(m);
+                    for w in keys.windows(2) {
+                        let l = w[0].iter().zip(w[1].iter()).take_while(|(a, b)| a == b).count();
+                        absent.push(w[0][..l].to_vec());
+                    }
+                    absent.retain(|k| !m.contains_key(k));
+                    c.r.shuffle(&mut absent);
+                    absent.truncate(1 + c.r.below(6) as usize);
+                    c.log.push(format!("  delete of {} absent keys: {:?}", absent.len(), absent.iter().map(|k| hx(k)).collect::<Vec<_>>()));
+                    delete_all(&mut st, &mut c.loader, &absent)?;
+                    sh.hit("chain.refreeze_unmodified.absent_deletes");
+                }
+                // ... and a checkpoint (a fresh generation that is kept)
+                let mut st = if c.r.chance(1, 2) {
+                    c.log.push("  checkpoint: make_fresh_generation, continue in the new generation".into());
+                    sh.hit("chain.refreeze_unmodified.checkpoint");
+                    let mut g = st.make_fresh_generation(&mut c.loader);
+                    if c.r.chance(1, 2) {
+                        let keys: Vec<Vec<u8>> = m.keys().cloned().collect();
+                        let k = near_key(c.r, &keys);
+                        let got = look(&mut g, &mut c.loader, &k);
+                        if got.as_ref() != m.get(&k) {
+                            return Err(format!("lookup in the new generation of {} gives {:?}", hx(&k), got.map(|g| g.len())));
+                        }
+                    }
+                    g
+                } else {
+                    st
+                };
                 let mut sc = SizeCollector::default();
                 p = st.freeze(&mut c.loader, &mut sc);
                 let n = sc.collect();
@@ -394,7 +450,7 @@ pub fn run(ctx: &ChildCtx, sh: &mut Shard) {
         let mut c = Ctx { r: &mut r, store: vec![], loader: Loader::new(vec![]), log: vec![] };
         let res = vmon_core::catch(|| -> Result<(), String> {
             let mut last = None;
-            let hists: Vec<u64> = if miri { vec![1, 4] } else { vec![0, 1, 2, 3, 4, 5] };
+            let hists: Vec<u64> = if miri { vec![1, 4, 6] } else { vec![0, 1, 2, 3, 4, 5, 6] };
             for which in hists {
                 let p = build(&mut c, which, &m)?;
                 sh.evaluations += 1;
